@@ -16,3 +16,8 @@ func (g *G) MutateStmt(d int) *Node { return g.mutateStmt(d) }
 
 // AssignStmt assigns a fresh or existing variable.
 func (g *G) AssignStmt(d int) *Node { return g.assignStmt(d) }
+
+// Reserve keeps a name out of the generator's hands: it is never reassigned by an
+// assignment statement and never returned by FreshName (C09 uses it for variables whose
+// run-time type the generator must not guess: value trees with multi-key dicts).
+func (g *G) Reserve(name string) { g.reserved[name] = true }
